@@ -51,11 +51,21 @@ static const int MAXFR = 16384;
 
 // Ambient garbage: every C++ allocation is filled with g_fill (and, outside AddressSanitizer, glibc's
 // M_PERTURB does the same for malloc).  The observed run and solo run 1 use 0x00 (what a fresh process
-// sees), solo run 2 uses another byte (0xA5, 0xB4, 0x28, 0xFF or 0x4C, by execution): output that depends on uninitialised heap memory then differs between the
+// sees), solo run 2 uses a byte sequence: output that depends on uninitialised heap memory then differs between the
 // two repetitions instead of depending on allocator luck.
 static volatile int g_fill = 0;
 #if !ISO_TSAN   // the ThreadSanitizer runtime brings its own (strong) operator new
-static inline void *fillNew(size_t n) { if(!n) n = 1; void *p = malloc(n); if(p) memset(p, g_fill, n); return p; }
+// g_fill = 0: zeros; otherwise a fixed byte SEQUENCE seeded by g_fill (a uniform byte can land where it is harmless:
+// 0xA5 written to FM register 0xA5 is inaudible), the same in every process and for every allocation
+static inline void *fillNew(size_t n)
+{
+    if(!n) n = 1;
+    uint8_t *p = (uint8_t *)malloc(n);
+    if(!p) return NULL;
+    if(g_fill == 0) memset(p, 0, n);
+    else for(size_t i = 0; i < n; ++i) p[i] = (uint8_t)(g_fill + i * 0x3D + (i >> 2) * 0x11);
+    return p;
+}
 void *operator new(size_t n) { void *p = fillNew(n); if(!p) throw std::bad_alloc(); return p; }
 void *operator new[](size_t n) { void *p = fillNew(n); if(!p) throw std::bad_alloc(); return p; }
 void *operator new(size_t n, const std::nothrow_t &) noexcept { return fillNew(n); }
@@ -293,10 +303,8 @@ static int childRun(const Exec &ex, int which, int fd)
     {
         for(int rep = 0; rep < 2; ++rep)
         {
-            // second solo run: another garbage byte; it varies with the execution because what a stray byte does depends on
-            // where it lands (0xA5 written to FM register 0xA5 is inaudible, 0xB4 / 0x28 hit pan and key-on registers)
-            static const int fills[5] = { 0xA5, 0xB4, 0x28, 0xFF, 0x4C };
-            setFill(rep ? fills[ex.cmds.size() % 5] : 0);
+            // second solo run: other garbage (a byte sequence, see fillNew)
+            setFill(rep ? 0xA5 : 0);
             Inst in;
             for(size_t k = 0; k < ex.cmds.size(); ++k)
             {
